@@ -38,6 +38,11 @@ Two layers.
     [d - tol, d + tol + avg] with avg recomputed independently from the pair sizes of the tree edges,
     ring closure over the graph edge that is not a tree edge, sampled end-to-end distances.
 
+    The flavours `*-renumbered` give every molecule type residue ids with an offset and gaps, listed in an order that
+    does not ascend with the listing order; residues are selected by (name, resid in [start, stop)) whatever the node
+    order.  Tie `declared-regions-registered`: the region restraints attached to every residue node (`restraints`
+    attribute, the state the walk consults) are exactly those the build file declares for it.
+
 Trusted / modelled: float sqrt/arccos of numpy (inputs of the predicate streams are dyadic and kept away
 from the angle boundary; the oracle widens every region by 1e-9), networkx traversal orders (tied by the
 tree stream), scipy KD-tree and the LJ overlap test (opaque booleans in the model), numpy.random.
